@@ -24,13 +24,13 @@ func init() {
 				"(flow-census, add-checked) flow.n is written only by take/add with their guards, take is called only from processData and takeFrom, every add on a live flow has its overflow result tested and turned into an error or panic; " +
 				"(refund, announce-account) noteBodyRead refunds the connection window on every path and the stream window with the same n, sendWindowUpdate splits into increments <= 2^31-1, sendWindowUpdate32 announces exactly the amount it adds to the window of the level it names, bytes taken but not delivered to the body pipe are refunded at connection level; " +
 				"(stream-id) a stream is created and maxStreamID raised only under odd id, id > maxStreamID, not in GOAWAY, each violated test returns an error, every return of processSynStream reached with the id tests passed - success, refused request, too many streams - has gone through the store that raises maxStreamID to the id on every feasible path (id-consumed: an id is used up once validated, whatever happens to the request), the handler is started only under curOpenStreams <= advMaxStreams, RST_STREAM on an idle stream is a connection error; " +
-				"(data-state, body-invariant) DATA is taken/written only for a stream found in the table in state open, every other case returns a StreamError, and every stream that stays registered in state open has its body pipe stored; " +
+				"(data-state, body-invariant) DATA is taken/written only for a stream found in the table in state open, every other case returns a StreamError, and every stream that stays registered in state open has its body pipe stored: processSynStream puts the request's own RequestBody.pipe into st.body on every success path, newWriterAndRequest creates the pipe only under st.state == stateOpen and - the converse - every success return it can reach without contradicting st.state == stateOpen has passed a non-nil store to RequestBody.pipe (so the pipe depends on the stream state alone, not on method or Content-Length), and a stream is put into state open only before the request is built; " +
 				"(window-size-range) the 32-bit SETTINGS_INITIAL_WINDOW_SIZE and WINDOW_UPDATE delta are range-limited before conversion to int32; " +
 				"(affinity) functions asserting serveG.Check() are unreachable from go statements, timer callbacks and the exported/handler-facing API except through serverConn.serve, functions asserting CheckNotOn() are unreachable from serve; " +
 				"(single-writer) frames are written only by writeFrames, fed only by startFrameWrite under the writingFrame flag; (queue-mutators) the per-stream queue is mutated only by push/shift/forgetStream; " +
 				"(panic-census) explicit panics and unchecked type assertions reachable from the serve loop are exactly the reviewed ones. " +
 				"Not covered: sums of windows over long histories, refunds for DATA dropped on unknown/closed streams or left unread in a closed pipe, scheduling order, frame-sequence semantics, index arithmetic panics.",
-			RuleText:    "obligations = each flow.take call, each writer of flow.n, each flow.add call, each window-update call in the refund chain, each guard of stream creation, each return of processSynStream behind the id tests (id recorded), each DATA acceptance guard, each serve-only / not-serve function, each frame-writer site, each function with explicit panics on the serve path",
+			RuleText:    "obligations = each flow.take call, each writer of flow.n, each flow.add call, each window-update call in the refund chain, each guard of stream creation, each return of processSynStream behind the id tests (id recorded), each DATA acceptance guard, each success return of newWriterAndRequest (open => pipe), each store of stateOpen, each serve-only / not-serve function, each frame-writer site, each function with explicit panics on the serve path",
 			Assumptions: []string{"callbacks enter bfe_spdy from other packages only through exported functions, exported methods and interface methods (treated as non-serve roots)", "gotrack.GoroutineLock.Check/CheckNotOn are the affinity assertions"},
 		},
 		Run: runC40,
@@ -50,6 +50,11 @@ func init() {
 			{Name: "max-streams-check-after-start", File: "bfe_spdy/server_process_frame.go", Old: "	if sc.curOpenStreams > sc.advMaxStreams {", New: "	if sc.curOpenStreams > sc.advMaxStreams && sc.inGoAway {", Expect: "stream-id|processSynStream:max-streams"},
 			{Name: "data-on-half-closed-accepted", File: "bfe_spdy/server_process_frame.go", Old: "	if st.state != stateOpen {\n		// This includes", New: "	if st.state == stateClosed {\n		// This includes", Expect: "data-state|processData:open"},
 			{Name: "body-not-stored", File: "bfe_spdy/server_process_frame.go", Old: "	st.body = req.Body.(*RequestBody).pipe // may be nil\n", New: "", Expect: "body-invariant|processSynStream"},
+			{Name: "pipe-only-for-body-methods", File: "bfe_spdy/server_process_frame.go", Old: "\t\tbody.pipe = pipe.NewPipeFromBufferPool(&fixBufferPool)\n", New: "\t\tif method != \"GET\" {\n\t\t\tbody.pipe = pipe.NewPipeFromBufferPool(&fixBufferPool)\n\t\t}\n", Expect: "body-invariant|newWriterAndRequest:open-has-pipe:return#1"},
+			{Name: "pipe-only-for-declared-length", File: "bfe_spdy/server_process_frame.go", Old: "\t\t\treq.ContentLength = len\n\t\t} else {\n\t\t\treq.ContentLength = -1\n\t\t}\n\t\tbody.pipe = pipe.NewPipeFromBufferPool(&fixBufferPool)\n", New: "\t\t\treq.ContentLength = len\n\t\t\tbody.pipe = pipe.NewPipeFromBufferPool(&fixBufferPool)\n\t\t} else {\n\t\t\treq.ContentLength = -1\n\t\t}\n", Expect: "body-invariant|newWriterAndRequest:open-has-pipe:return#1"},
+			{Name: "stream-reopened-after-request-built", File: "bfe_spdy/server_process_frame.go", Old: "\tst.declBodyBytes = req.ContentLength\n", New: "\tst.declBodyBytes = req.ContentLength\n\tif req.ContentLength > 0 {\n\t\tst.state = stateOpen\n\t}\n", Expect: "body-invariant|open-writer"},
+			{Name: "stream-body-is-not-the-request-pipe", File: "bfe_spdy/server_process_frame.go", Old: "\tst.body = req.Body.(*RequestBody).pipe // may be nil\n", New: "\tst.body = pipe.NewPipeFromBufferPool(&fixBufferPool)\n", Expect: "body-invariant|processSynStream:return#1"},
+			{Name: "silent-pipe-created-under-direct-state-test", File: "bfe_spdy/server_process_frame.go", Old: "\t\tbody.pipe = pipe.NewPipeFromBufferPool(&fixBufferPool)\n\t}\n\n\trws := ", New: "\t}\n\tif st.state == stateOpen {\n\t\tbody.pipe = pipe.NewPipeFromBufferPool(&fixBufferPool)\n\t}\n\n\trws := ", Silent: true},
 			{Name: "handler-writes-on-serve-path", File: "bfe_spdy/server_conn.go", Old: "	if err := sc.writeFrameFromHandler(frameWriteMsg{\n		frame:  frame,\n		stream: st,\n		done:   errc,\n	}); err != nil {\n		return err\n	}", New: "	sc.writeFrame(frameWriteMsg{\n		frame:  frame,\n		stream: st,\n		done:   errc,\n	})", Expect: "affinity|serve-only:serverConn.writeFrame"},
 			{Name: "handler-refunds-directly", File: "bfe_spdy/server_flow_control.go", Old: "	select {\n	case sc.bodyReadCh <- bodyReadMsg{st, n}:\n	case <-sc.doneServing:\n	}", New: "	sc.noteBodyRead(st, n)", Expect: "affinity|serve-only:serverConn.noteBodyRead"},
 			{Name: "serve-blocks-on-handler-channel", File: "bfe_spdy/server_conn.go", Old: "	sc.writeFrame(frameWriteMsg{\n		frame: &RstStreamFrame{", New: "	sc.writeFrameFromHandler(frameWriteMsg{\n		frame: &RstStreamFrame{", Expect: "affinity|not-serve:serverConn.writeFrameFromHandler"},
@@ -856,8 +861,13 @@ func runC40(c *core.Ctx) {
 					continue
 				}
 				n++
-				bad := core.ReachAvoiding(f, mu, func(in ssa.Instruction) bool { _, ok := spdyFieldStore(in, bodyF); return ok }, func(in ssa.Instruction) bool { return in == ssa.Instruction(r) })
-				c.Check("body-invariant", fmt.Sprintf("processSynStream:return#%d", n), r.Pos(), bad == nil, "a stream stays registered (success return) without st.body having been set from the request body: the first DATA frame on it hits `panic(\"internal error: should have a body in this state\")`")
+				// the store that counts puts the request's own pipe into st.body
+				pipeF, _ := c.P.Obj(spdyPkg, "RequestBody.pipe").(*types.Var)
+				bad := core.ReachAvoiding(f, mu, func(in ssa.Instruction) bool {
+					s, ok := spdyFieldStore(in, bodyF)
+					return ok && spdyFieldLoad(strip(s.Val), pipeF)
+				}, func(in ssa.Instruction) bool { return in == ssa.Instruction(r) })
+				c.Check("body-invariant", fmt.Sprintf("processSynStream:return#%d", n), r.Pos(), bad == nil, "a stream stays registered (success return) without st.body having been set from the pipe of the request body (a load of RequestBody.pipe): the first DATA frame on it hits `panic(\"internal error: should have a body in this state\")`")
 			}
 		}
 	}
@@ -882,8 +892,15 @@ func runC40(c *core.Ctx) {
 			})
 			c.Check("body-invariant", fmt.Sprintf("newWriterAndRequest:pipe#%d", n), s.Pos(), guarded && !spdyIsNil(s.Val), "the request body pipe must be created exactly when the stream is in state open")
 		}
+		// converse (x_spdymods3.go): an open stream gets a pipe on every success path
+		if open, okK := constVal("stateOpen"); okK && pf != nil {
+			c40OpenHasPipe(c, f, pf, open)
+			if sf := fieldVar("stream.state"); sf != nil {
+				c40OpenStateFixedBeforeRequest(c, fns, sf, open)
+			}
+		}
 	}
-	c.Min("body-invariant", 2)
+	c.Min("body-invariant", 4)
 	if f := fn("serverConn.processResetStream"); f != nil {
 		idle, okK := constVal("stateIdle")
 		found := false
